@@ -239,7 +239,14 @@ def aesFull (C : CbcAlg) (ckey iv c : Bytes) (real : Nat) : Bytes :=
   C.dec ckey iv (c.take (real % two32)) ++ zeros (real - real % two32)
 
 def aesIvDecAfter (C : CbcAlg) (st : AesSt) (c : Bytes) (real : Nat) : AesSt :=
-  { st with ivDec := if real % two32 = 0 then st.ivDec else lastBlock C.block (c.take (real % two32)) }
+  if real % two32 = 0 then st else { st with ivDec := lastBlock C.block (c.take (real % two32)) }
+
+theorem gen_slots : Gen.cbcEncIvSlot = 0 ∧ Gen.cbcDecIvSlot = 1 := ⟨rfl, rfl⟩
+
+theorem get_enc_slot (st : AesSt) : st.get Gen.cbcEncIvSlot = st.ivEnc := rfl
+theorem get_dec_slot (st : AesSt) : st.get Gen.cbcDecIvSlot = st.ivDec := rfl
+theorem set_enc_slot (st : AesSt) (v : Bytes) : st.set Gen.cbcEncIvSlot v = { st with ivEnc := v } := rfl
+theorem set_dec_slot (st : AesSt) (v : Bytes) : st.set Gen.cbcDecIvSlot v = { st with ivDec := v } := rfl
 
 /-- closed form of `aes_cipher::decrypt` for every cipher text of representable length: no `ub` branch is
 left, the MAC is checked over all of `c.take (|c| - digest)` (at least two whole blocks) before anything is
@@ -259,6 +266,7 @@ theorem aesDecrypt_closed (C : CbcAlg) (M : MacAlg) (hC : C.Lawful) (hM : M.Lawf
   have hb : C.block = 16 := hC.block_eq
   unfold aesDecrypt
   rw [hb]
+  simp only [get_dec_slot, set_dec_slot]
   have h1 : Gen.aesDecReject1 c.length M.size 16 = decide (c.length < M.size + 16) := rfl
   by_cases hlt : c.length < M.size + 16
   · rw [if_pos (by rw [h1]; simpa using hlt), if_pos hlt]
@@ -412,7 +420,7 @@ theorem aesEncrypt_closed (C : CbcAlg) (M : MacAlg) (hC : C.Lawful) (ck mk : Byt
     apply Nat.mod_eq_of_lt; rw [hl]; unfold two32; omega
   rw [hn, hb]
   have hne : ¬ (aesFrame plain).length = 0 := by rw [hl]; omega
-  simp [hne, zeros]
+  simp [hne, zeros, get_enc_slot, set_enc_slot]
 
 /-! ### time_t encoding -/
 
